@@ -51,19 +51,20 @@ class Project:
             f.write('\n'.join(lines) + '\n')
 
     def build_script(self, t, spec):
+        """a status is an exit code (int) or 'K<signal number>': the shell kills itself with that signal"""
         if spec.get('script'):
             return spec['script'].replace('$TRACE', self.trace)
+        tail = ('echo "end %s $x" >> %s\ncase "$x" in K*) kill -${x#K} $$; sleep 5;; *) exit $x;; esac' % (t, self.trace))
         if spec.get('gated'):
             g = os.path.join(self.gates, t)
             if not os.path.exists(g):
                 os.mkfifo(g)
             # keep the FIFO open read-write on our side: releases never block and are never lost
             self.gate_fd[t] = os.open(g, os.O_RDWR)
-            return ('echo "start %s $$" >> %s\nexec 3<>%s\nread x <&3\n%s\necho "end %s $x" >> %s\nexit $x'
-                    % (t, self.trace, g, spec.get('effect', ':'), t, self.trace))
+            return ('echo "start %s $$" >> %s\nexec 3<>%s\nread x <&3\n%s\n%s'
+                    % (t, self.trace, g, spec.get('effect', ':'), tail))
         st = spec.get('status', 0)
-        return ('echo "start %s $$" >> %s\n%s\necho "end %s %d" >> %s\nexit %d'
-                % (t, self.trace, spec.get('effect', ':'), t, st, self.trace, st))
+        return ('echo "start %s $$" >> %s\n%s\nx=%s\n%s' % (t, self.trace, spec.get('effect', ':'), st, tail))
 
     def service_script(self, t, spec):
         if spec.get('script'):
@@ -73,7 +74,7 @@ class Project:
         return 'echo "start %s $$" >> %s\nexec sleep 100000' % (t, self.trace)
 
     def release(self, t, status=0):
-        os.write(self.gate_fd[t], ('%d\n' % status).encode())
+        os.write(self.gate_fd[t], ('%s\n' % status).encode())
 
     def read_trace(self):
         out = []
@@ -252,7 +253,7 @@ def drive_to_end(run, rng, fail=(), hang_s=None, order='random', max_s=120):
                 t = rng.choice(sorted(pend))
             else:
                 t = sorted(pend)[0]
-            run.release(t, 1 if t in fail else 0)
+            run.release(t, (fail[t] if isinstance(fail, dict) else 1) if t in fail else 0)
             continue
         if run.idle_for(0.25):
             # nothing pending for a while: either finished scripts are being processed, or the engine is stuck
